@@ -300,6 +300,15 @@ FEATURES = [
      [lambda: dict(x=1), lambda: dict(x='two'), lambda: dict(x=None)]),
     ('tree', '<dtml-tree root branches=tpValues>&dtml-id;</dtml-tree>',
      [lambda: tree_ns(None), lambda: tree_ns('a'), lambda: tree_ns('b')]),
+    ('tree-urlparam', '<dtml-tree root branches=tpValues urlparam="view=c" '
+                      'nowrap sort=id>&dtml-id;</dtml-tree>',
+     [lambda: tree_ns(None), lambda: tree_ns('a'), lambda: tree_ns('b')]),
+    ('tree-options', '<dtml-tree root branches=tpValues reverse single '
+                     'assume_children header=hd footer=ft>&dtml-id;'
+                     '</dtml-tree>',
+     [lambda: dict(tree_ns(None), hd=sub('H'), ft=sub('F')),
+      lambda: dict(tree_ns('a'), hd=sub('H2')),
+      lambda: dict(tree_ns('b'), ft=sub('F3'))]),
     ('sort-types', '[<dtml-in seq sort=k><dtml-var k>;</dtml-in>]',
      [lambda: dict(seq=objs(DEC('2.5'), DEC('1.5'))),
       lambda: dict(seq=objs(True, False, True)),
